@@ -399,3 +399,115 @@ sv_proof!(c16_count_n3, 8, c16::body::<3>(1, true));
 sv_proof!(c16_depth2_n2, 7, c16::body::<2>(2, false));
 #[cfg(sourcemap_verif)]
 sv_proof!(c16_depth2_n3, 8, c16::body::<3>(2, false));
+
+// ---------------------------------------------------------------------------
+// C16, hook-independent variant: `std::sync::Mutex::lock` itself is replaced (S7) by a
+// version that first lets "other threads" run (the same nested-call callback as above)
+// and then takes the lock with try_lock; a lock that is already held by this call chain
+// is a self-deadlock and is reported.  Every lock acquisition in the code under test --
+// also one a future change adds -- thereby becomes a yield point.
+#[cfg(sourcemap_verif)]
+pub(crate) mod c16_lockstub {
+    use super::*;
+    use std::sync::{LockResult, MutexGuard, TryLockError};
+
+    pub(crate) static mut VIEW: *const SourceView = std::ptr::null();
+    pub(crate) static mut ACTIVE: bool = false;
+    pub(crate) static mut DEPTH: u8 = 0;
+    pub(crate) static mut NESTED: u8 = 0;
+    pub(crate) static mut REFP: Pieces = Pieces { n: 0, start: [0; MAXP], len: [0; MAXP] };
+
+    pub(crate) fn lock_with_yield<T>(m: &std::sync::Mutex<T>) -> LockResult<MutexGuard<'_, T>> {
+        unsafe {
+            if ACTIVE && DEPTH == 0 && !VIEW.is_null() {
+                // nobody holds the lock at this point unless this call chain does
+                let free = match (*VIEW).lines.try_lock() {
+                    Ok(g) => {
+                        drop(g);
+                        true
+                    }
+                    Err(_) => false,
+                };
+                if free {
+                    let go: bool = kani::any();
+                    if go {
+                        DEPTH = 1;
+                        NESTED += 1;
+                        let j: u32 = kani::any();
+                        let r = (*VIEW).get_line(j);
+                        let p = REFP;
+                        assert!(line_is(&*VIEW, &p, j, r), "C16/nested-call-result");
+                        DEPTH = 0;
+                    }
+                }
+            }
+        }
+        match m.try_lock() {
+            Ok(g) => Ok(g),
+            Err(TryLockError::Poisoned(p)) => Err(p),
+            Err(TryLockError::WouldBlock) => {
+                assert!(false, "C16/call-blocks-on-a-lock-it-holds");
+                loop {}
+            }
+        }
+    }
+
+    pub(crate) fn body<const N: usize>(outer_count: bool) {
+        let t = any_text::<N>();
+        let p = ref_split(&t);
+        let sv = view_of(&t);
+        unsafe {
+            REFP = p;
+            VIEW = &sv as *const SourceView;
+            DEPTH = 0;
+            NESTED = 0;
+            ACTIVE = false;
+        }
+        let warm: bool = kani::any();
+        if warm {
+            let w: u32 = kani::any();
+            let r = sv.get_line(w);
+            assert!(line_is(&sv, &p, w, r), "C16/warm-call-result");
+        }
+        unsafe { ACTIVE = true };
+        if outer_count {
+            let c = sv.line_count();
+            assert!(c == p.n, "C16/outer-line-count");
+        } else {
+            let i: u32 = kani::any();
+            let r = sv.get_line(i);
+            assert!(line_is(&sv, &p, i, r), "C16/outer-result");
+        }
+        unsafe { ACTIVE = false };
+        let nested = unsafe { NESTED };
+        let k: u32 = kani::any();
+        let r = sv.get_line(k);
+        assert!(line_is(&sv, &p, k, r), "C16/later-call-result");
+        assert!(sv.line_count() == p.n, "C16/later-line-count");
+        kani::cover!(nested >= 1, "a nested call ran before a lock acquisition");
+        kani::cover!(nested == 0, "no interference");
+        unsafe { VIEW = std::ptr::null() };
+        forget(sv);
+    }
+}
+
+#[cfg(sourcemap_verif)]
+macro_rules! c16_lock_proof {
+    ($name:ident, $u:literal, $body:expr) => {
+        #[kani::proof]
+        #[kani::unwind($u)]
+        #[kani::stub(std::vec::Vec::new, crate::vstubs::vec_new)]
+        #[kani::stub(std::vec::Vec::push, crate::vstubs::vec_push)]
+        #[kani::stub(core::slice::memchr::memchr_aligned, crate::vstubs::memchr_aligned)]
+        #[kani::stub(std::sync::Mutex::lock, crate::sourceview::verif_h::c16_lockstub::lock_with_yield)]
+        fn $name() {
+            $body
+        }
+    };
+}
+#[cfg(sourcemap_verif)]
+c16_lock_proof!(c16_lock_n1, 6, c16_lockstub::body::<1>(false));
+#[cfg(sourcemap_verif)]
+c16_lock_proof!(c16_lock_n2, 7, c16_lockstub::body::<2>(false));
+#[cfg(sourcemap_verif)]
+c16_lock_proof!(c16_lock_count_n2, 7, c16_lockstub::body::<2>(true));
